@@ -70,4 +70,32 @@ theorem tie_update_safe (env : Env) (hmax : 1 ≤ env.maxRef) (htopo : env.topo.
     · rfl
     · obtain ⟨l, _, rfl⟩ := List.mem_map.mp ht; rfl
 
+/-- **who runs a read…commit round on a node ledger** (round 2).  `update_atomic_safe` assumes ONE scheduling goroutine per
+    node ledger (`ShapeOK`: only thread 0 reads and commits; `two_schedulers_counterexample` shows it is needed).
+    In the source this rests on:
+    * the ONLY commit of an allocation computed by Allocate is `resourceManager.Update` in `Plugin.Reserve`
+      (`state.allocation` is assigned only by `Plugin.allocate`, called from `Plugin.Reserve` and — for a pod whose
+      allocation is designated by its annotation, on the one pre-selected node — from `Plugin.Filter`); every other
+      `Allocate` (Filter, Score, topology hints, reservation nomination, preemption dry-run) discards its result;
+    * the other ledger writers are the informer (`podEventHandler.updatePod/deletePod`: the `updAtomic` / `release`
+      actions of the model) and `Plugin.Unreserve` (a `release`); nobody outside the package reaches the manager;
+    * the Reserve plugins are run by the kube-scheduler scheduling cycle (one goroutine, `scheduleOne`; binding
+      cycles are asynchronous but do not run Reserve) and by the batch engine, whose call sits in a
+      `parallelizer.Until(ctx, len(podRequestsByNode), func(i) { podRequestsOnNode := podRequestsByNode[i]; … })`
+      closure: one worker per NODE group (`JobRequest.PodsByNode` is keyed by node), the pods of a node one after
+      the other — so never two rounds on the same node ledger at once (each node has its own NodeAllocation + lock).
+    A new commit site, a new assigner of `state.allocation`, a new runner of the Reserve plugins or a parallel loop
+    of another shape changes an extracted list and breaks this `decide`. -/
+theorem tie_commit_sites :
+    C06.ledgerUpdateCallers = ["Plugin.Reserve", "podEventHandler.updatePod"] ∧
+    C06.ledgerReleaseCallers = ["Plugin.Unreserve", "podEventHandler.deletePod", "podEventHandler.updatePod"] ∧
+    C06.allocationAssigners = ["Plugin.allocate"] ∧
+    C06.allocateCallers = ["Plugin.Filter", "Plugin.Reserve"] ∧
+    C06.resourceManagerExternalUsers = [] := by decide
+
+theorem tie_reserve_runners :
+    C06.reserveRunners = ["pkg/scheduler/batch:Engine.RunSchedulingCycle",
+                          "pkg/scheduler/frameworkext:frameworkExtenderImpl.RunReservePluginsReserve"] ∧
+    C06.reserveParallelSites = 1 := by decide
+
 end KoordVerif.C06
